@@ -78,7 +78,7 @@ def decode(body, sblock, value, facts):
     """decode the edge `value` (None = otherwise) of the switch terminating block sblock"""
     du = du_of(body)
     term = body.blocks[sblock].term
-    t = du.operand_term(term.discr, 16)
+    t = du.operand_term(term.discr, 26)
     targets = [v for (v, _) in term.j["targets"]]
     is_bool = term.j.get("discr_ty") == "bool"
     if term.kind == "assert":
